@@ -300,14 +300,25 @@ func cmdCheck(args []string) int {
 			nsyn++
 		}
 	}
-	if nsyn > 0 && nsyn == len(verdicts) {
-		// only ownership / single-writer / tag obligations: decided by the analysis over go/ssa, not by a solver
-		level = "other"
-		explanation = "every obligation of this property is an ownership obligation (goroutine confinement of declared fields, complete writer lists) decided by the engine's analysis over go/ssa and the module's call graph; no SMT query is generated. The notes under assumptions state the roots found and the approximations of the call graph."
-		samples = nil
-		for _, v := range verdicts {
-			samples = append(samples, map[string]interface{}{"obligation": v.Obl.Name, "kind": v.Obl.Kind, "verdict": v.Status, "detail": v.Obl.Detail, "examined": v.Obl.Info})
+	nconf := 0
+	for _, v := range verdicts {
+		if v.Obl.Kind == "confined" {
+			nconf++
 		}
+	}
+	if nconf > 0 || (nsyn > 0 && nsyn == len(verdicts)) {
+		// a property that rests on ownership obligations (goroutine confinement, single-writer lists): those are decided by
+		// the analysis over go/ssa, not by a solver - the level is "other", not "proof", whatever else is discharged by SMT
+		level = "other"
+		explanation = fmt.Sprintf("%d of the %d obligations of this run are ownership obligations (goroutine confinement of declared fields and functions, complete writer lists) decided by the engine's analysis over go/ssa and the module's call graph, without an SMT query; the others are contract obligations discharged by the solvers as for the other properties. The notes under assumptions state the roots found and the approximations of the call graph.", nsyn, len(verdicts))
+		var syn []interface{}
+		for _, v := range verdicts {
+			switch v.Obl.Kind {
+			case "tag", "writers", "confined":
+				syn = append(syn, map[string]interface{}{"obligation": v.Obl.Name, "kind": v.Obl.Kind, "verdict": v.Status, "detail": v.Obl.Detail, "examined": v.Obl.Info})
+			}
+		}
+		samples = append(syn, samples...)
 	}
 	if len(samples) == 0 {
 		samples = append(samples, map[string]interface{}{"note": "no non-trivial obligation discharged in this run"})
